@@ -228,6 +228,10 @@ pub struct Stats {
     pub open_sigs: Vec<String>,
     pub frozen: bool,
     pub exhaustive_parts: Vec<String>,
+    /// upper bound on the number of digests kept (fuzzing processes run for a long time); digests
+    /// beyond it are counted in `nontrivial_overflow` instead of being remembered
+    pub nontrivial_cap: Option<usize>,
+    pub nontrivial_overflow: u64,
 }
 
 impl Stats {
@@ -259,7 +263,11 @@ impl Stats {
     }
     pub fn nontrivial(&mut self, d: u64) {
         if !self.frozen {
-            self.nontrivial.insert(d);
+            if self.nontrivial_cap.map_or(false, |c| self.nontrivial.len() >= c) {
+                self.nontrivial_overflow += 1;
+            } else {
+                self.nontrivial.insert(d);
+            }
         }
     }
     /// keep up to `max` samples per class; the closure is evaluated only when a sample is kept
@@ -722,7 +730,11 @@ impl Ctx {
         let Some(s) = &self.serve else { return };
         let rx = s.rx.lock().unwrap();
         let tx = s.tx.lock().unwrap();
-        *FUZZ_STATS.lock().unwrap() = Some(self.new_stats());
+        {
+            let mut st = self.new_stats();
+            st.nontrivial_cap = Some(400_000);
+            *FUZZ_STATS.lock().unwrap() = Some(st);
+        }
         while let Ok(data) = rx.recv() {
             let mut g = FUZZ_STATS.lock().unwrap();
             let st = g.as_mut().unwrap();
@@ -809,6 +821,7 @@ impl Stats {
         json!({
             "evaluations": self.evaluations,
             "nontrivial": self.nontrivial.iter().take(4_000_000).collect::<Vec<_>>(),
+            "nontrivial_overflow": self.nontrivial_overflow,
             "classes": self.classes,
             "samples": self.samples,
             "known_hits": self.known_hits,
@@ -816,6 +829,10 @@ impl Stats {
     }
     pub fn absorb_dump(&mut self, v: &Value) {
         self.evaluations += v["evaluations"].as_u64().unwrap_or(0);
+        let over = v["nontrivial_overflow"].as_u64().unwrap_or(0);
+        if over > 0 {
+            *self.classes.entry("non-trivial cases of fuzzing processes beyond the per-process digest cap (counted, not de-duplicated)".into()).or_insert(0) += over;
+        }
         if let Some(a) = v["nontrivial"].as_array() {
             for d in a {
                 if let Some(d) = d.as_u64() {
